@@ -490,4 +490,166 @@ Proof.
   - apply okm_panic.
 Qed.
 
+(* ================================================================ Part C *)
+Lemma okm_conj {A} (m : Prog.M A) (P Q : A -> Prop) : okm m P -> okm m Q -> okm m (fun a => P a /\ Q a).
+Proof. intros HP HQ s a s' E. split; [exact (HP _ _ _ E)|exact (HQ _ _ _ E)]. Qed.
+
+Definition replay_post (e : aenc) (st : fw * aenc) : Prop :=
+  Inv (fst st) /\ att_pre (fst st) (snd st) /\ same_par e (snd st).
+
+Lemma att_replay_ok af e ev : Inv af -> att_pre af e -> okm (att_replay L leqb (af, e) ev) (replay_post e).
+Proof.
+  intros Hinv Hp. unfold replay_post.
+  apply okm_conj.
+  { eapply okm_weaken; [apply (att_replay_af L leqb)|]. cbv beta. intros st ->. apply (inv_ev_apply L leqb leqb_spec). exact Hinv. }
+  unfold att_replay. destruct ev as [l|l|a b|a b|x y z|x y z].
+  - apply att_new_argument_ok. exact Hp.
+  - eapply okm_bind; [apply (att_remove_argument_ok af e l Hinv Hp)|]. intros r Hr.
+    apply okm_unwrap_ok. intros p ->. exact Hr.
+  - apply okm_unwrap_ok'. intros p Hr. apply okm_ret. cbn [fst snd]. split; [|apply same_par_refl].
+    eapply att_pre_ls; [|exact Hp]. rewrite <- (new_attack_ls L leqb af a b), Hr. reflexivity.
+  - apply okm_unwrap_ok'. intros p Hr. apply okm_ret. cbn [fst snd]. split; [|apply same_par_refl].
+    eapply att_pre_ls; [|exact Hp]. rewrite <- (remove_attack_ls L leqb af a b), Hr. reflexivity.
+  - apply okm_ret. split; [exact Hp|apply same_par_refl].
+  - apply okm_ret. split; [exact Hp|apply same_par_refl].
+Qed.
+
+Lemma fold_att_replay_ok evs : forall af e,
+  Inv af -> att_pre af e -> okm (fold_m (att_replay L leqb) evs (af, e)) (replay_post e).
+Proof.
+  induction evs as [|ev r IH]; intros af e Hinv Hp; cbn [fold_m].
+  - apply okm_ret. split; [exact Hinv|]. split; [exact Hp|apply same_par_refl].
+  - eapply okm_bind; [apply att_replay_ok; assumption|]. intros [af1 e1] (H1 & H2 & H3). cbn [fst snd] in *.
+    eapply okm_weaken; [apply IH; assumption|]. intros st (K1 & K2 & K3). split; [exact K1|]. split; [exact K2|].
+    eapply same_par_trans; eassumption.
+Qed.
+
+(* the encoder of an attacks solver between two calls / right after update_encoding *)
+Definition att_par (k : dkind) (e : aenc) : Prop :=
+  a_sem e = kind_sem k /\ a_num e = kind_num k /\ a_den e = kind_den k.
+Definition att_inv (k : dkind) (af : fw) (b : dbuf L) : Prop :=
+  exists e, b_enc L b = XAtt e /\ att_par k e /\ (att_initial L leqb af e \/ att_tables_ok af e).
+Definition att_post (k : dkind) (r : fw * dbuf L) : Prop :=
+  exists e, b_enc L (snd r) = XAtt e /\ att_par k e /\ att_tables_ok (fst r) e.
+
+Lemma att_par_same k e e' : att_par k e -> same_par e e' -> att_par k e'.
+Proof. unfold att_par, same_par. intros (A & B & C) (D & E & F). repeat split; congruence. Qed.
+
+Lemma initial_pre af e : att_initial L leqb af e -> att_pre af e.
+Proof.
+  intros [He _]. left. rewrite He. cbn [aenc_new a_need a_a2v a_vars]. split; [reflexivity|].
+  intros id v H. destruct id; discriminate H.
+Qed.
+
+Lemma update_encoding_att k af b :
+  Inv af -> att_inv k af b -> okm (update_encoding L leqb af b) (fun r => Inv (fst r) /\ att_post k r).
+Proof.
+  intros Hinv (e & He & Hpar & Hst). unfold update_encoding. rewrite He.
+  assert (Hp : att_pre af e) by (destruct Hst as [Hi|Ht]; [apply initial_pre; exact Hi|right; exact Ht]).
+  eapply okm_bind; [apply (fold_att_replay_ok _ af e Hinv Hp)|]. intros [af' e'] (H1 & H2 & H3). cbn [fst snd] in *.
+  eapply okm_bind; [apply (att_update_encoding_ok af' e' H1)|]. intros e'' (K1 & K2 & K3).
+  apply okm_ret. cbn [fst snd buf_with b_enc]. split; [exact H1|]. exists e''. split; [reflexivity|].
+  split; [eapply att_par_same; [eapply att_par_same; [exact Hpar|exact H3]|exact K3]|].
+  destruct (a_need e') eqn:En; [apply K2; reflexivity|]. rewrite (K1 eq_refl).
+  destruct H2 as [[Hn _]|Ht]; [congruence|exact Ht].
+Qed.
+
+Lemma att_kind_not_dummy k : att_kind k -> not_dummy k.
+Proof. destruct k; cbn; auto. Qed.
+
+Lemma att_inv_reach k s os :
+  reach k s os -> att_kind k -> Inv (s_af L s) /\ att_inv k (s_af L s) (s_buf L s).
+Proof.
+  induction 1 as [ps ps' s Hn|s os o Hr IH|s os oracle thr fuel q cert l ps ps' s' a Hr IH Hq]; intros Hk.
+  - unfold dyn_new in Hn. destruct k; try destruct Hk;
+      apply bind_Done in Hn; destruct Hn as (u & ps1 & _ & Hn); apply Done_inj in Hn; destruct Hn as [<- _];
+      cbn [s_af s_buf]; (split; [apply (init_inv L leqb leqb_spec [])|]);
+      eexists; (split; [reflexivity|]); (split; [unfold att_par; cbn; auto|]); left; split; reflexivity.
+  - destruct (IH Hk) as [Hinv Hi]. pose proof (reach_frame_inv L leqb _ _ _ Hr) as [Hkind _ _ _].
+    assert (Hnd : not_dummy (s_kind L s)) by (rewrite Hkind; apply att_kind_not_dummy; exact Hk).
+    destruct (update_touches_no_encoder L leqb s o Hnd) as (Haf & Hen & _).
+    rewrite Haf. split; [exact Hinv|]. unfold att_inv. rewrite Hen. exact Hi.
+  - destruct (IH Hk) as [Hinv Hi].
+    pose proof (dyn_query_shape L leqb oracle thr fuel s q cert l _ (update_encoding_att k _ _ Hinv Hi) _ _ _ Hq) as Hp.
+    unfold pushed in Hp. cbn [fst] in Hp.
+    destruct Hp as [->|(af & buf & ev & [Hinv' (e' & He' & Hpar' & Ht')] & ->)]; [auto|].
+    cbn [s_af s_buf fst snd] in *. split; [exact Hinv'|]. exists e'. unfold buf_push, buf_with. cbn [b_enc]. auto.
+Qed.
+
+(* ---- goal 1, assembled: the tables in every reachable state of the two attacks solvers *)
+Theorem att_tables_reach k s os :
+  reach k s os -> att_kind k ->
+  exists e, b_enc L (s_buf L s) = XAtt e /\
+    a_sem e = kind_sem k /\ a_num e = kind_num k /\ a_den e = kind_den k /\
+    (att_initial L leqb (s_af L s) e \/ att_tables_ok (s_af L s) e).
+Proof.
+  intros Hr Hk. destruct (att_inv_reach k s os Hr Hk) as [_ (e & He & (P1 & P2 & P3) & Hst)].
+  exists e. auto.
+Qed.
+
+(* a query that did not answer from the cache leaves freshly synchronised tables behind *)
+Theorem att_query_tables k s os oracle thr fuel q cert l ps ps' s' a :
+  reach k s os -> att_kind k ->
+  dyn_query oracle L leqb thr fuel s q cert l ps = Done (s', a) ps' ->
+  s' = s \/ exists e', b_enc L (s_buf L s') = XAtt e' /\ att_tables_ok (s_af L s') e' /\
+                       s_af L s' = Store.run_ops L leqb (DynDefs.fresh_fw L leqb) os.
+Proof.
+  intros Hr Hk Hq. destruct (att_inv_reach k s os Hr Hk) as [Hinv Hi].
+  pose proof (dyn_query_shape L leqb oracle thr fuel s q cert l _ (update_encoding_att k _ _ Hinv Hi) _ _ _ Hq) as Hp.
+  unfold pushed in Hp. cbn [fst] in Hp.
+  destruct Hp as [->|(af & buf & ev & [Hinv' (e' & He' & Hpar' & Ht')] & ->)]; [left; reflexivity|].
+  destruct (query_resynchronises L leqb k s os oracle thr fuel q cert l ps ps' _ a Hr Hq) as [E|(E & _)].
+  - left. exact E.
+  - right. cbn [s_af s_buf fst snd] in *. exists e'. unfold buf_push, buf_with. cbn [b_enc]. auto.
+Qed.
+
+(* ---- att_indices / att_assumptions never fail on consistent tables *)
+Lemma iter_attacks_live (af : fw) a b : Inv af -> In (a, b) (iter_attacks L af) ->
+  has_argument_with_id L af a = true /\ has_argument_with_id L af b = true.
+Proof.
+  intros Hinv Hin. unfold iter_attacks in Hin. apply In_fs_nth in Hin. destruct Hin as [k Hk].
+  destruct (inv_live L af Hinv k a b Hk) as (Ha & Hb & _). split; apply (has_arg_nth L); assumption.
+Qed.
+
+Lemma att_index_lt n va vb : 1 <= va -> va <= n -> 1 <= vb -> vb <= n -> att_index n va vb < n * n.
+Proof.
+  intros H1 H2 H3 H4. unfold att_index.
+  assert ((va - 1) * n <= (n - 1) * n) by (apply Nat.mul_le_mono_r; lia).
+  assert ((n - 1) * n + n = n * n) by (destruct n; [lia|]; cbn [Nat.sub]; rewrite Nat.sub_0_r; lia).
+  lia.
+Qed.
+
+Lemma att_indices_some af e (atts : list (nat * nat)) :
+  att_tables_ok af e ->
+  (forall a b, In (a, b) atts -> has_argument_with_id L af a = true /\ has_argument_with_id L af b = true) ->
+  exists idx, att_indices e atts = Some idx /\ length idx = length atts /\
+              forall i, In i idx -> i < a_n e * a_n e.
+Proof.
+  intros Ht. induction atts as [|[from to] r IH]; intros Hl; cbn [att_indices].
+  - exists []. split; [reflexivity|]. split; [reflexivity|]. intros i [].
+  - destruct (Hl from to (or_introl eq_refl)) as [Hf Hto].
+    apply (at_live L af e Ht) in Hf, Hto.
+    destruct (tbl_var (a_a2v e) to) as [vt|] eqn:Et; [|congruence].
+    destruct (tbl_var (a_a2v e) from) as [vf|] eqn:Ef; [|congruence].
+    destruct IH as (idx & -> & Hlen & Hlt); [intros a b Hin; apply Hl; right; exact Hin|].
+    destruct (tables_var_le af e to vt Ht Et) as [A1 A2]. destruct (tables_var_le af e from vf Ht Ef) as [B1 B2].
+    pose proof (att_index_lt (a_n e) vt vf A1 A2 B1 B2) as Hi. apply Nat.ltb_lt in Hi. rewrite Hi.
+    eexists. split; [reflexivity|]. split; [cbn [length]; lia|].
+    intros i [<-|Hin]; [apply Nat.ltb_lt; exact Hi|apply Hlt; exact Hin].
+Qed.
+
+Theorem att_assumptions_some af e :
+  Inv af -> att_tables_ok af e ->
+  exists idx, att_indices e (iter_attacks L af) = Some idx /\
+    (forall i, In i idx -> i < a_n e * a_n e) /\
+    att_assumptions L af e =
+      Some (map (fun i => if memb i idx then zlit (1 + i + a_n e) else znlit (1 + a_n e + i))
+                (seq 0 (a_n e * a_n e))).
+Proof.
+  intros Hinv Ht.
+  destruct (att_indices_some af e (iter_attacks L af) Ht) as (idx & Hi & _ & Hlt).
+  { intros a b Hin. apply iter_attacks_live; assumption. }
+  exists idx. split; [exact Hi|]. split; [exact Hlt|]. unfold att_assumptions. rewrite Hi. reflexivity.
+Qed.
+
 End Tables.
